@@ -34,3 +34,18 @@ claim("C05",
       "Safety half of store-carry-forward for all histories and schedules: no path releases a bundle's retention without its tabled cause; every exit of forward deletes-for-cause, releases-after-success or marks pending; the retry loop is wired and complete; numbering precedes persisting; a zero creation time is never used as an expiry date; concurrent failure reports are serialised.",
       "Not decided: liveness (eventual retransmission), crash/restart, epidemic's offer-to-every-new-peer as a history property.",
       "DESIGN.md §3 C05")
+claim("C13",
+      "membership-guard dominance (not-found outcome of a compare loop) + same-step recording + persisted-under-the-same-key value flow + sibling agreement of ReportFailure implementations + multi-instance-goroutine atomicity",
+      "For every selection site of every replicating algorithm, on every path: select => filtered against the sent list => recorded in it => persisted under the key it is read from; the previous node is recorded in the same list on reception; every algorithm that keeps such a list removes exactly the failed peer on failure (the implementations are cross-checked against each other); failure reports are serialised; direct delivery bypasses the algorithm.",
+      "Not decided: behaviour over whole histories and restarts beyond where the list lives (store item vs. memory).",
+      "DESIGN.md §3 C13")
+claim("C20",
+      "guarded-store dominance (replace-if-newer), guarded-call dominance (unicast next hop), who-may-write inventory of the node numbering, value-shape rules for arc cost and table construction, lockset",
+      "Necessary conditions only: replacement of link-state data requires absent-or-strictly-newer on every path; a unicast bundle goes only to routingTable[destination] and is released only then; the ID<->vertex numbering has one consistent writer; arc costs and the table are built from the stated expressions; all state is lock-protected. The least-cost claim itself (result of a third-party Dijkstra on a run-time graph) is NOT decided by this check.",
+      "Not decided: minimality of the chosen path (third-party library, run-time graph); arrival-order histories as a whole.",
+      "DESIGN.md §3 C20")
+claim("C06",
+      "mutation inventory (who-may-write through bundle pointers, receiver-mutating-method closure) against an allow-table + unit/scale analysis of Duration conversions + reachability from exceeded edges + increment/decrement pairing with pure-call path consistency + narrow-counter rule",
+      "For every forwarding path: routing code can change a bundle in transit only through the mutators the property allows and never its primary block; every duration that reaches a millisecond quantity has scale 10^6; the exceeded/expired outcomes lead to deletion and cannot reach a send; the hop count is restored exactly once after the sends; an 8-bit hop count cannot wrap and its overflow counts as exceeded.",
+      "Not decided: byte identity of the transmitted encoding; timing of the age value.",
+      "DESIGN.md §3 C06")
